@@ -157,7 +157,7 @@ def oracle_splits(t, keep=None):
     return out
 
 
-def in_scope(t, strict=True):
+def in_scope(t, strict=True, allow_zero=False):
     """the trees the property quantifies over: distinct printable tip names, positive lengths on every edge,
     every internal node (root included) with >= 2 children.  strict=False (inputs of later steps of a chain, which
     are results of earlier transformations): single-child nodes below the root are tolerated."""
@@ -165,7 +165,7 @@ def in_scope(t, strict=True):
     if len(set(tn)) != len(tn) or None in tn:
         return False
     for n, d, _ in all_nodes(t):
-        if d > 0 and (n[1] is None or n[1] <= 0):
+        if d > 0 and (n[1] is None or n[1] < 0 or (n[1] == 0 and not allow_zero)):
             return False
         if n[2] and len(n[2]) < 2 and (strict or d == 0):
             return False
@@ -191,8 +191,8 @@ def retained_tips(t, op):
 
 INPLACE = {"prune"}
 PRESERVING = {"rooted_at", "rooted_with_tip", "unrooted", "unrooted_deepcopy", "sub_tree", "sorted", "prune", "copy",
-              "deepcopy", "midpoint", "bifurcating", "newick_rt", "json_rt", "dist"}
-IDENTITY = {"copy", "deepcopy", "newick_rt", "json_rt", "dist"}
+              "deepcopy", "midpoint", "bifurcating", "multifurcating", "newick_rt", "json_rt", "dist", "warm"}
+IDENTITY = {"copy", "deepcopy", "newick_rt", "json_rt", "dist", "warm"}
 NEWICK_SPECIAL = set("[]'\"(),:;")
 
 
@@ -208,6 +208,8 @@ def name_ok_for_roundtrip(nm, op):
         return False
     if any(ord(c) < 32 or ord(c) > 126 for c in nm):
         return False
+    if op["op"] == "json_rt" and nm == "root":
+        return False  # edge attributes are keyed by name: a second "root" takes the root's parameters
     if op["op"] == "newick_rt" and not op.get("unmunge") and " " in nm:
         return False  # blanks are written as underscores; only underscore_unmunge=True reads them back
     return True
@@ -230,7 +232,9 @@ def oracle_step(t, op, st, strict):
     returns list of (key, what, expected, observed)"""
     bad = []
     o = op["op"]
-    if o not in PRESERVING or not in_scope(t, strict and o != "prune"):
+    # inputs of later steps may carry the zero-length edges bifurcating() adds (not for get_sub_tree, whose merging of
+    # single-child nodes drops a zero sum: outside "positive branch lengths")
+    if o not in PRESERVING or not in_scope(t, strict and o != "prune", allow_zero=(not strict and o != "sub_tree")):
         return bad
     sc = shape_class(t)
     if o not in INPLACE and st.get("mut_recv"):
@@ -290,7 +294,10 @@ def oracle_step(t, op, st, strict):
         exp = [d1[(a, b)] for i, a in enumerate(names) for b in names[i + 1:]]
         if len(exp) != len(st["dists"]) or not all(close(x, y) for x, y in zip(exp, st["dists"])):
             bad.append((f"get_distances:{o}:{sc}", "get_distances() of the result vs path lengths of the result", exp[:10], st["dists"][:10]))
-    if o != "bifurcating":
+    if o in ("bifurcating", "multifurcating"):
+        if not oracle_splits(t, keep) <= oracle_splits(res):
+            bad.append((f"splits:{o}:{sc}", "resolving polytomies must keep every split", None, None))
+    else:
         s0, s1 = oracle_splits(t, keep), oracle_splits(res)
         if s0 != s1:
             bad.append((f"splits:{o}:{sc}", "unrooted topology (non-trivial splits) among retained tips",
@@ -300,13 +307,41 @@ def oracle_step(t, op, st, strict):
     return bad
 
 
+BUILDER_OPS = {"rooted_at", "rooted_with_tip", "unrooted_deepcopy", "midpoint", "parse", "newick_rt", "json_rt"}
+
+
+def names_step(t, op, st):
+    """operations that build their result through ONE TreeBuilder hand out unique node names: when the names present in the
+    input are distinct (unnamed nodes allowed) and no node below the root is called 'root', the result has no repeated name"""
+    o = op["op"]
+    res = st.get("res")
+    if o not in BUILDER_OPS or not isinstance(res, list):
+        return []
+    if o != "parse":
+        names = [n for n in node_names(t) if n not in (None, "")]
+        if len(set(names)) != len(names) or "root" in node_names(t)[1:]:
+            return []
+        if o in ("newick_rt", "json_rt") and len(names) != len(node_names(t)):
+            return []  # unnamed nodes cannot be written (C10: tree:PhyloNode:json:node-names)
+    rn = node_names(res)
+    dup = sorted({n for n in rn if rn.count(n) > 1 and not (o == "parse" and n == "root")}, key=str)
+    if dup:
+        return [(f"names:{o}:duplicate", "two nodes of the result carry the same name", "unique node names", dup)]
+    return []
+
+
 def oracle_check(case, ir):
     """all violations over the steps of a chain"""
     bad = []
     trees = {-1: case["tree"]}
     cur = case["tree"]
     for k, (op, st) in enumerate(zip(case["ops"], ir["steps"])):
+        if op["op"] == "tree_distance":
+            if "val" in st:
+                bad += treedist_check(case, st, cur, k)
+            continue
         bad += oracle_step(cur, op, st, strict=(k == 0))
+        bad += names_step(cur, op, st)
         # a tree other than the receiver changed: the new trees share state with the trees they were made from
         for j in st.get("others_changed", []):
             if j in trees and in_scope(trees[j], strict=(j == -1)):
@@ -364,13 +399,19 @@ def coq_op(o, fx, fxm=False, fxj=False):
     if k == "bifurcating":
         return "OBifurcating"
     if k == "tree_distance":
-        return f"OTreeDistRF {coq_tree(o['other'])}"
+        if o["other"] == "self_fresh":
+            return "OTreeDistSelf"
+        return f"OTreeDistRF {coq_tree(o['_orig'] if o['other'] == 'orig' else o['other'])}"
+    if k == "warm":
+        return "ODist"
     return None
 
 
 def modelled(case, variant):
     for o in case["ops"]:
-        if coq_op(o, False) is None:
+        if coq_op(dict(o, _orig=case["tree"]), False) is None:
+            return False
+        if o["op"] == "tree_distance" and o is not case["ops"][-1]:
             return False
         if o["op"] in ("unrooted", "sub_tree") and variant.get("unrooted") not in ("v0", "fixed"):
             return False
@@ -393,7 +434,8 @@ def coq_case(case, variant):
     fx = variant.get("unrooted") == "fixed"
     fxm = variant.get("midpoint") == "fixed"
     fxj = variant.get("json") == "fixed"
-    return f"({coq_tree(case['tree'])}, [" + ";".join(coq_op(o, fx, fxm, fxj) for o in case["ops"]) + "])"
+    ops = [dict(o, _orig=case["tree"]) if o["op"] == "tree_distance" else o for o in case["ops"]]
+    return f"({coq_tree(case['tree'])}, [" + ";".join(coq_op(o, fx, fxm, fxj) for o in ops) + "])"
 
 
 def model_view(mr):
@@ -629,7 +671,8 @@ def names_block():
 def parse_block(rng):
     texts = ["(a,b,c);", "((a:1,b:2):3,(c:4,d:5):6);", "((a,b)x,c)y;", "(a_b,'c d','e''f');", "( a , b ) ;", "(a,b)", "a;", "(a,b));",
              "((a,b);", "(a:1:2,b);", "(a,b)c d;", "('a,b",  "(a,,b);", "(,);", "(a b,c);", "\"x y\";", "(a\n,b);", "((a,b)(c,d));",
-             "(a,(b)c);", "(a:-1,b:10);", "(a:x,b);", "(a,b):3;", "(edge,edge.0,root);", "(a,a,a);"]
+             "(a,(b)c);", "(a:-1,b:10);", "(a:x,b);", "(a,b):3;", "(edge,edge.0,root);", "(a,a,a);", "(edge.0,b,(c,d));", "((a,b),(c,d),edge.1);", "(mouse.2,mouse,mouse);",
+             "(mouse,mouse,mouse.2);", "((edge.0.2,x),edge.0,(y,z));", "(a,(a,(a,b)));", "((a,b)edge.0,(c,d));"]
     return [dict(tree=["root", None, [["a", 1, []], ["b", 1, []]]], ops=[dict(op="parse", text=s, unmunge=u)], scale=1, block="parse")
             for s in texts for u in (False, True)]
 
@@ -663,8 +706,8 @@ def treedist_oracle(t1, t2, method):
     alltips = frozenset(tip_names(t1))
     ref = sorted(alltips)[0]
     r1, r2 = len(t1[2]) == 2, len(t2[2]) == 2
-    if r1 != r2:
-        return None  # one rooted, one unrooted: refused
+    if r1 != r2 or set(tip_names(t1)) != set(tip_names(t2)):
+        return None  # one rooted, one unrooted / different tips: refused
     if method == "rf":
         method = "rooted_robinson_foulds" if r1 else "unrooted_robinson_foulds"
     if method == "matching":
@@ -717,26 +760,114 @@ def treedist_block(tier, rng):
     return cases
 
 
-def treedist_check(case, st):
+def history_block(tier, rng):
+    """distances AFTER a history: warm the tree's caches (subsets / distances), derive a tree by a transformation, then
+    measure against a freshly built copy of the source ('orig') and of the derived tree itself ('self_fresh')"""
+    cases = []
+    pool = []
+    for n in (4, 5, 6):
+        shs = shapes(n, ordered=False)
+        rng.shuffle(shs)
+        for sh in shs[: (4 if tier == "quick" else 12)]:
+            names = [chr(97 + i) for i in range(n)]
+            rng.shuffle(names)
+            pool.append(label(sh, length_stream(rng, "pos"), tipnames=names))
+    for t in pool:
+        tips = tip_names(t)
+        internal = [n for n in node_names(t)[1:] if n not in tips]
+        transforms = [dict(op="bifurcating"), dict(op="multifurcating", k=2), dict(op="multifurcating", k=3), dict(op="copy"),
+                      dict(op="deepcopy"), dict(op="sorted", order=list(reversed(tips))), dict(op="unrooted"),
+                      dict(op="unrooted_deepcopy"), dict(op="rooted_with_tip", name=tips[-1]), dict(op="prune"),
+                      dict(op="sub_tree", names=tips[:-1], im=False, kr=False, tipsonly=True)]
+        if internal:
+            transforms.append(dict(op="rooted_at", name=rng.choice(internal)))
+        for tr in transforms:
+            for other in ("orig", "self_fresh"):
+                cases.append(dict(tree=t, ops=[dict(op="warm"), tr, dict(op="tree_distance", other=other, methods=["rf", "matching"])],
+                                  scale=1, block="treedist-history"))
+    return cases
+
+
+def parser_style_tree(rng, ntips):
+    """names as the library itself generates them: internal nodes edge.0, edge.1, ... (creation order = postorder), and tips
+    that look like generated names"""
+    t = random_tree(rng, ntips)
+    cnt = itertools.count()
+    odd = ["edge.0", "edge.1", "edge.2", "edge.0.2", "mouse.2", "mouse", "edge.10", "root.2"]
+    rng.shuffle(odd)
+
+    def rec(node, is_root):
+        kids = [rec(c, False) for c in node[2]]
+        if is_root:
+            nm = "root"
+        elif kids:
+            nm = f"edge.{next(cnt)}"
+        else:
+            nm = node[0]
+        return [nm, node[1], kids]
+
+    t = rec(t, True)
+    used = set(node_names(t))
+    for nd, _, _ in all_nodes(t):
+        if not nd[2] and odd and rng.random() < 0.5 and odd[-1] not in used:
+            nd[0] = odd.pop()
+            used.add(nd[0])
+    return t
+
+
+def generated_names_block(tier, rng):
+    """compositions through which the library has to name nodes itself: bifurcating() leaves nodes unnamed, re-rooting names
+    them, the round trips and get_sub_tree then rely on those names"""
+    cases = []
+    for _ in range(40 if tier == "quick" else 300):
+        t = parser_style_tree(rng, rng.randint(4, 8))
+        # make sure there is a polytomy for bifurcating() to resolve
+        if all(len(nd[2]) <= 2 for nd, _, _ in all_nodes(t)):
+            t[2].append([f"x{len(t[2])}", rng.randint(1, 9), []])
+        tips = tip_names(t)
+        internal = [n for n in node_names(t)[1:] if n not in tips]
+        first = rng.choice([dict(op="bifurcating"), dict(op="bifurcating"), dict(op="multifurcating", k=2), dict(op="dist")])
+        reroot = rng.choice([dict(op="rooted_with_tip", name=rng.choice(tips)), dict(op="unrooted_deepcopy")]
+                            + ([dict(op="rooted_at", name=rng.choice(internal))] if internal else []))
+        keep = rng.sample(tips, max(2, len(tips) - 1))
+        last = rng.choice([dict(op="json_rt"), dict(op="newick_rt", unmunge=True), dict(op="newick_rt", unmunge=False),
+                           dict(op="sub_tree", names=keep + ([internal[0]] if internal and rng.random() < 0.5 else []),
+                                im=False, kr=False, tipsonly=False),
+                           dict(op="rooted_with_tip", name=rng.choice(tips)), dict(op="sorted"), dict(op="dist")])
+        cases.append(dict(tree=t, ops=[first, reroot, last], scale=1, block="generated-names"))
+    return cases
+
+
+def treedist_check(case, st, cur=None, k=0):
+    """one tree_distance step: `cur` is the tree it is called on (the input, or the result of the previous steps)"""
     bad = []
-    op = case["ops"][0]
-    t1, t2 = case["tree"], op["other"]
+    op = case["ops"][k]
+    t1 = cur if cur is not None else case["tree"]
+    t2 = case["tree"] if op["other"] == "orig" else t1 if op["other"] == "self_fresh" else op["other"]
+    hist = "+".join(o["op"] for o in case["ops"][:k] if o["op"] != "warm")
+    tag = ("after:" + hist + ":") if k else ""
+    if len(set(tip_names(t1))) != len(tip_names(t1)) or None in tip_names(t1):
+        return bad
     for m, got in zip(op["methods"], st.get("val") or []):
         exp = treedist_oracle(t1, t2, m)
         if isinstance(got, dict):
             if exp is not None:
-                bad.append((f"treedist:{m}:raised", "tree_distance raised on two valid trees with the same tips", exp, got))
+                bad.append((f"treedist:{tag}{m}:raised", "tree_distance raised on two valid trees with the same tips", exp, got))
             continue
         d12, d21, d11 = got
-        if exp is not None and d12 != exp:
-            bad.append((f"treedist:{m}:value", "distance vs independent split/cluster-set computation", exp, d12))
+        if exp is None:
+            bad.append((f"treedist:{tag}{m}:not-refused", "tree_distance of a rooted and an unrooted tree / different tip sets must be refused", "ValueError", got))
+            continue
+        if d12 != exp:
+            bad.append((f"treedist:{tag}{m}:value", "distance vs independent split/cluster-set computation on the same two trees "
+                        "(t1 = the tree the method is called on, as dumped; t2 = a freshly built tree)", exp, d12))
         if d12 != d21:
-            bad.append((f"treedist:{m}:symmetry", "d(t1,t2) vs d(t2,t1)", d12, d21))
+            bad.append((f"treedist:{tag}{m}:symmetry", "d(t1,t2) vs d(t2,t1)", d12, d21))
         if d11 != 0:
-            bad.append((f"treedist:{m}:self", "d(t, copy of t)", 0, d11))
+            bad.append((f"treedist:{tag}{m}:self", "d(t, copy of t)", 0, d11))
         same = (clades(t1) == clades(t2)) if len(t1[2]) == 2 else (oracle_splits(t1) == oracle_splits(t2))
         if (d12 == 0) != same:
-            bad.append((f"treedist:{m}:zero", "distance is zero exactly for equal topologies", same, d12))
+            bad.append((f"treedist:{tag}{m}:zero", "distance is zero exactly for equal topologies", same, d12))
     return bad
 
 
@@ -769,8 +900,8 @@ def compare(rep, cases, impl, model, variant):
             rep.violation(key, dict(case=c, observed_impl=ir, broken="implementation runner failed or hung on this case"))
             nviol += 1
             continue
-        bad = treedist_check(c, ir["steps"][0]) if c["ops"][0]["op"] == "tree_distance" else oracle_check(c, ir)
-        if c["ops"][0]["op"] == "tree_distance" and "val" in ir["steps"][0]:
+        bad = oracle_check(c, ir)
+        if c["ops"][-1]["op"] == "tree_distance" and "val" in ir["steps"][-1]:
             nontrivial.add(json.dumps([c["tree"], c["ops"]], sort_keys=True))
         for key, what, exp, obs in bad:
             nviol += 1
@@ -875,7 +1006,7 @@ def run(tier: str, seed: int) -> int:
     rep.notes.append(f"source variant probe: {pv}")
     proof_broken = bool(pr["problems"])
 
-    cases = corpus() + parse_block(rng) + names_block() + exhaustive_block(tier, rng) + random_block(tier, rng) + treedist_block(tier, rng)
+    cases = corpus() + parse_block(rng) + names_block() + exhaustive_block(tier, rng) + random_block(tier, rng) + treedist_block(tier, rng) + history_block(tier, rng) + generated_names_block(tier, rng)
     if proof_broken:
         cases += random_block("thorough" if tier == "quick" else tier, rng)
     impl = core.run_impl_sharded("c09_impl.py", cases)
@@ -946,7 +1077,7 @@ def replay(path: str) -> int:
         print("impl  :", json.dumps(ir))
         print("REPRODUCED (runner failure / hang)")
         return 1
-    bad = treedist_check(c, ir["steps"][0]) if c["ops"][0]["op"] == "tree_distance" else oracle_check(c, ir)
+    bad = oracle_check(c, ir)
     print("case  :", json.dumps(c))
     print("impl  :", json.dumps(ir))
     for key, what, exp, obs in bad:
